@@ -77,6 +77,19 @@ def cmp_obj(progs, cls_list=(FS, SS)):
                                    where=f['pname'], unit=prog.uname))
             if nuse:
                 rr.instance('%s|uses' % f['key'], {'function': f['pname'][:140], 'comparator_calls': nuse})
+            # SmallSet keeps its comparator inside the backing set: a default-constructed SetType temporary that replaces `_set` loses it
+            if in_class(f, SS) and f.get('kind') != 'ctor' and f.get('clsq') == SS:
+                rec = prog.record(f.get('cls', ''))
+                set_t = None
+                for fd in (rec or {}).get('fields', []):
+                    if fd['name'] == '_set':
+                        set_t = norm(fd['t'])
+                for n in walk(f['body']):
+                    if set_t and n.get('k') == 'construct' and norm(n.get('t', '')) == set_t and n.get('ctor') == 'default' and not n.get('defarg'):
+                        rr.add(Finding('CMP-OBJ', '%s|settype' % f['key'], prog.site(f, n),
+                                       'a default-constructed backing set (which carries a default-constructed comparator and allocator) is created in a member of '
+                                       'SmallSet: swapping / assigning it into the set loses the comparator the SmallSet was constructed with',
+                                       where=f['pname'], unit=prog.uname))
     return rr
 
 
@@ -907,4 +920,134 @@ def iter_state(progs):
                 if bad:
                     rr.add(Finding('ITER-STATE', '%s' % f['key'], prog.site(f, rn), 'the iterator returned here is ' + bad + ': it does not compare against end() '
                                    'of the active container and designates an element that is gone', where=f['pname'], unit=prog.uname))
+    return rr
+
+
+# ------------------------------------------------------------------------------ CMP-INIT / SWAP-BOTH
+def cmp_init(progs):
+    rr = RuleResult('CMP-INIT', 'a set constructed with a comparator argument, or from another set, stores that comparator (the Compare base of FlatSet / '
+                                'the backing set of SmallSet is initialised from it), and swap exchanges the comparators together with the elements')
+    for prog in progs:
+        cmps = compare_types(prog)
+        for f in prog.amc_functions():
+            if f.get('kind') == 'ctor' and f.get('clsq') in (FS, SS) and f.get('body') is not None:
+                ps = f.get('params', [])
+                cmp_params = [i for i, p in enumerate(ps) if norm(p['t']) in cmps]
+                set_params = [i for i, p in enumerate(ps) if norm(p['t']) == norm(f.get('cls', '')) and i == 0]
+                if not cmp_params and not set_params:
+                    continue
+                want = cmp_params or set_params
+                inits = f.get('inits') or []
+                ok = False
+                deleg = False
+                for i in inits:
+                    uses = {x.get('idx') for x in walk(i.get('init') or {}) if x.get('k') == 'ref' and x.get('dk') == 'param'}
+                    if i.get('delegating'):
+                        deleg = True
+                        ok = ok or bool(uses & set(want))
+                    target_is_cmp = (i.get('base') and norm(i['base']) in cmps) or i.get('member') == '_set'
+                    if target_is_cmp and (uses & set(want)):
+                        ok = True
+                if in_class(f, SS) and set_params and not cmp_params:
+                    # copy / move with allocator: `_set(o._set, alloc)` carries the comparator
+                    ok = any(i.get('member') == '_set' and any(x.get('k') == 'ref' and x.get('dk') == 'param' and x.get('idx') == 0 for x in walk(i.get('init') or {})) for i in inits)
+                rr.instance('%s' % f['key'], {'constructor': f['pname'][:150], 'comparator_source_params': want, 'stored': ok})
+                if not ok:
+                    rr.add(Finding('CMP-INIT', '%s' % f['key'], f['loc'],
+                                   'this constructor receives a comparator (or another set) but the stored comparator is not initialised from it: the set orders with a '
+                                   'default-constructed comparator', where=f['pname'], unit=prog.uname))
+            if short(f['name']) == 'swap' and f.get('clsq') in (FS, SS) and f.get('body') is not None and f.get('params'):
+                body = f['body']
+                if in_class(f, FS):
+                    sw_cmp = any(A.cshort(c) == 'swap' and any(norm(a.get('t', '')) in cmps or norm(A.strip(a).get('t', '')) in cmps for a in c.get('args', []) if isinstance(a, dict))
+                                 for c in A.calls(body))
+                    sw_vec = any(A.cshort(c) == 'swap' and ((c.get('obj') is not None and A.strip(c['obj']).get('name') == '_sortedVector') or
+                                                           any(A.strip(a).get('name') == '_sortedVector' for a in c.get('args', []) if isinstance(a, dict))) for c in A.calls(body))
+                    ok = sw_cmp and sw_vec
+                    what = 'comparator=%s vector=%s' % (sw_cmp, sw_vec)
+                else:
+                    names = set()
+                    for c in A.calls(body):
+                        if A.cshort(c) == 'swap':
+                            for x in walk(c):
+                                if x.get('k') == 'mem' and x.get('name') in ('_vec', '_set'):
+                                    names.add(x['name'])
+                    ok = names >= {'_vec', '_set'}
+                    what = 'swapped members %s' % sorted(names)
+                rr.instance('%s' % f['key'], {'function': f['pname'][:150], 'exchanges': what, 'ok': ok})
+                if not ok:
+                    rr.add(Finding('CMP-INIT', '%s|swap' % f['key'], f['loc'],
+                                   'swap does not exchange every part of the set (%s): with stateful comparators the elements end up under a comparator they were not '
+                                   'sorted with' % what, where=f['pname'], unit=prog.uname))
+    return rr
+
+
+# ------------------------------------------------------------------------------ NODE-MOVE
+def node_move(progs):
+    rr = RuleResult('NODE-MOVE', 'the value of a node handed to insert(node) is moved from only where the insertion happens: along the call chain it is '
+                                 'forwarded as an rvalue reference, never used to build a temporary before the lookup')
+    for prog in progs:
+        for f in prog.amc_functions():
+            if not (in_class(f, FS) or in_class(f, SS)) or short(f['name']) != 'insert' or f.get('body') is None:
+                continue
+            if not any('node_type' in p['t'] and p['t'].rstrip().endswith('&&') for p in f.get('params', [])):
+                continue
+            # the call that receives std::move(*node._optV)
+            starts = []
+            for c in A.calls(f['body']):
+                if not (c.get('amc') and c.get('fn')):
+                    continue
+                for i, a in enumerate(c.get('args', []) or []):
+                    if isinstance(a, dict) and any(x.get('k') == 'mem' and x.get('name') == '_optV' for x in walk(a)) and A.callee(A.strip(a)) in ('std::move', 'std::forward'):
+                        starts.append((c, i))
+            seen = set()
+            verdicts = []
+
+            def follow(fid, pidx, depth=0):
+                if (fid, pidx) in seen or depth > 6:
+                    return
+                seen.add((fid, pidx))
+                g = prog.fns.get(fid)
+                if g is None or g.get('body') is None or not g.get('amc'):
+                    return
+                P = A.Parents(g['body'])
+                for n in walk(g['body']):
+                    if not (n.get('k') == 'ref' and n.get('dk') == 'param' and n.get('idx') == pidx):
+                        continue
+                    # climb through std::forward / std::move to the consumer
+                    cur = n
+                    par, slot = P.parent(cur)
+                    while par is not None and par.get('k') == 'call' and A.callee(par) in ('std::forward', 'std::move'):
+                        cur = par
+                        par, slot = P.parent(cur)
+                    if par is None:
+                        continue
+                    if cur is n and not (par.get('k') in ('call', 'construct')):
+                        continue          # read as an lvalue (comparisons): does not move
+                    if par.get('k') == 'construct' and cur is not n:
+                        # T(std::forward<Args>(args)...) : a temporary is built from the node's value, unconditionally
+                        guarded = bool(P.guards(par))
+                        verdicts.append((g, par, guarded, 'a temporary %s is constructed from it' % par.get('t', '')[:60]))
+                    elif par.get('k') == 'call' and cur is not n:
+                        if par.get('amc') and par.get('fn') and (A.callee(par).startswith(FS + '::') or A.callee(par).startswith(SS + '::')):
+                            idx = [i for i, a in enumerate(par.get('args', [])) if a is cur]
+                            if idx:
+                                follow(par['fn'], idx[0], depth + 1)
+                        else:
+                            # handed to the underlying container (vector insert / push_back, std::set::insert)
+                            nm = A.cshort(par)
+                            if nm in ('insert', 'push_back', 'emplace_back', 'emplace') and 'std::set' not in (A.strip(par.get('obj') or {}).get('t', '')) \
+                                    and '_Rb_tree' not in A.callee(par):
+                                guarded = bool(P.guards(par))
+                                verdicts.append((g, par, guarded, 'it is moved into the underlying container by %s' % nm))
+            for c, i in starts:
+                follow(c['fn'], i)
+            for g, node, guarded, what in verdicts:
+                rr.instance('%s|%s|%s' % (f['key'], g['key'], rel(prog.site(g, node))), {'insert_node': f['pname'][:120], 'in': g['pname'][:120], 'consumption': what, 'conditional_on_lookup': guarded})
+                if not guarded:
+                    rr.add(Finding('NODE-MOVE', '%s|%s' % (f['key'], g['key']), prog.site(g, node),
+                                   'the value of the node is consumed unconditionally (%s) before it is known whether an equivalent element exists: a refused node '
+                                   'is left holding a moved-from value' % what, where=g['pname'], unit=prog.uname))
+            if starts:
+                rr.instance('%s|chain' % f['key'], {'insert_node': f['pname'][:140], 'functions_followed': len(seen)})
     return rr
